@@ -10,13 +10,19 @@ Property theorems.  Spec level (any element type, any strict weak order, all inp
 Model level (transliteration `Model/C08Msp.lean` of the C++):
   * `certified_run_is_the_partition`         — a model run accepted by the checker returned THE partition
   * `partition_rank_total`                   — the `rank == N` shortcut
-The all-inputs correctness of the halving refinement is OPEN (see the end of the file).
+  * `refinement_correct`, `refinement_correct_lists` — ALL INPUTS: the transliterated halving refinement succeeds (no
+                                               out-of-range read, no top() of an empty queue) and returns THE partition
+                                               (loop invariant `Inv`, Proofs/C08Inv*.lean … C08Correct.lean)
+  * `selection_model_correct`                 — ALL INPUTS: the model of multisequence_selection succeeds and returns a value
+                                               equivalent to the element at the rank and its offset among the equivalents
 -/
 import TlxVerif.Proofs.C08Spec
 import TlxVerif.Proofs.C08Checker
 import TlxVerif.Proofs.C08Exists
 import TlxVerif.Proofs.C08Select
 import TlxVerif.Proofs.C08Model
+import TlxVerif.Proofs.C08Correct
+import TlxVerif.Proofs.C08SelCorrect
 import TlxVerif.Model.C08Msp
 namespace TlxVerif.C08
 
@@ -130,7 +136,7 @@ example : certifiedPartition ⟨Cmp.lt.fn, #[#[1, 2, 2, 2], #[1, 1]]⟩ 4 = some
 /-- the `rank == N` shortcut of `multisequence_partition`: every offset is the end of its sequence, and
 no element is read -/
 theorem partition_rank_total (c : Ctx) :
-    runM (partitionM c (totalLen c)) = .ok (c.runs.map (fun x => (x.size : Int)), #[]) := by
+    runM (partitionM c (totalLen c)) = .ok (seqlenOf c, #[]) := by
   simp [runM, partitionM, StateT.run, pure, StateT.pure, Except.pure]
 
 /-- … and the ends of the sequences are the partition at rank N -/
@@ -144,15 +150,40 @@ theorem ends_are_partition_at_total (lt : α → α → Bool) (runs : List (List
     simp only [List.getElem?_map, hrj, Option.map_some, Option.some.injEq] at hoj
     subst hoj; simp at hy
 
--- OPEN: msp_correct — for all sorted non-empty runs and 0 ≤ rank ≤ N, `partitionM` succeeds and its result is
---   the `IsPartition` offset vector (correctness of the halving refinement with the two priority queues,
---   Varman et al.): not proved.  Individual runs are certified by `certified_run_is_the_partition`
---   (translation validation); C06/C07 take `IsPartition` as hypothesis.
--- OPEN: msp_bounds — `0 ≤ a[i] ≤ len_i`, no out-of-range read and no `top()` of an empty queue for all inputs
---   (the model answers `model-failure` where the C++ would be undefined): not proved, never observed.
--- OPEN: selection_correct — `selectionM` itself returns an `IsSelection` for all inputs: follows from
---   `selection_characterised` once `refine` is known to end in a weak partition with `a[i] = min(b[i], len_i)`
---   (same open loop invariant as msp_correct); until then checked by the harness oracle (4 M exhaustive
---   cases) and the correspondence.
+/-- **Correctness of `multisequence_partition` (model) for all inputs** — closes the former OPEN items
+`msp_correct` and `msp_bounds`.  For every tuple of non-empty sequences sorted w.r.t. a strict weak order and
+every rank `0 ≤ rank ≤ N` the executable model (the function the driver runs, with its read trace) succeeds and
+its offsets are non-negative and satisfy the partition specification; by `partition_unique_at_rank` they are
+THE partition.  Proof: the invariant `Inv` (offsets are multiples of the stride inside their sequences,
+`b = a + stride − 1`, every left edge sample strictly before every right edge sample in (value, sequence)
+order) is established by the initial partition, preserved by the classification loop and by every
+priority-queue step, and at stride 1 with the exact rank it is the specification. -/
+theorem refinement_correct {c : Ctx} (hg : Good c) {rank : Nat} (hr : rank ≤ totalLen c) :
+    ∃ offs tr, runM (partitionM c rank) = .ok (offs, tr) ∧ offs.size = c.runs.size ∧
+      (∀ i, i < c.runs.size → 0 ≤ aget offs i) ∧ IsPartition c.lt (runsL c) rank (natOffs c offs) :=
+  msp_correct hg hr
+
+theorem refinement_correct_lists {lt : Int → Int → Bool} (hlt : StrictWeak lt) {runs : List (List Int)}
+    (hne : ∀ r ∈ runs, r ≠ []) (hs : ∀ r ∈ runs, SortedRun lt r) {rank : Nat}
+    (hr : rank ≤ (runs.map List.length).sum) :
+    ∃ offs tr, runM (partitionM (ctxOf lt runs) rank) = .ok (offs, tr) ∧
+      offs.toList.all (fun x => decide (0 ≤ x)) = true ∧
+      IsPartition lt runs rank (offs.toList.map Int.toNat) :=
+  msp_correct_lists hlt hne hs hr
+
+/-- the invariant is not vacuous: it holds (evaluated by the kernel) along a concrete run with ties -/
+example : checkRun ⟨Cmp.lt.fn, #[#[1, 2, 2, 2], #[1, 1], #[0, 2, 5]]⟩ .partition 4 = true := by decide +kernel
+
+/-- **Correctness of `multisequence_selection` (model) for all inputs** — closes the former OPEN item
+`selection_correct`.  The same refinement loop with value-only comparisons maintains the invariant `Inv` for the
+value order (no first right sample smaller than a last left sample); at stride 1 this is a weak partition at the
+exact rank, the final scan returns a value-smallest right edge, and `selection_characterised` turns that into
+the specification: `#{x < v} ≤ rank < #{x ≤ v}` and `offset = rank − #{x < v}` (≥ 0). -/
+theorem selection_model_correct {c : Ctx} (hg : Good c) {rank : Nat} (hr : rank < totalLen c) :
+    ∃ v off tr, runM (selectionM c rank) = .ok ((v, off), tr) ∧ 0 ≤ off ∧
+      IsSelection c.lt (runsL c) rank v off.toNat :=
+  selection_correct hg hr
+
+example : checkRun ⟨Cmp.lt.fn, #[#[1, 2, 2, 2], #[1, 1], #[0, 2, 5]]⟩ .selection 4 = true := by decide +kernel
 
 end TlxVerif.C08
